@@ -4,6 +4,7 @@ import (
 	"fmt"
 	"sort"
 	"testing"
+	"time"
 
 	cachepkg "github.com/jdillenkofer/pithos/internal/cache"
 	"github.com/jdillenkofer/pithos/internal/cache/evictionpolicy/evictnothing"
@@ -80,6 +81,9 @@ func c20Alphabet(m *sx.Model, stack string) []sx.Op {
 			sx.Op{Kind: "Get", B: "bka", K: k},
 			sx.Op{Kind: "Put", B: "bka", K: k, Body: "a", Opt: map[string]string{"ct": "text/a", "meta": "m=1", "tags": "t=1"}},
 			sx.Op{Kind: "Put", B: "bka", K: k, Body: "P5"},
+			// puts the inner storage rejects only after it has consumed the whole body
+			sx.Op{Kind: "Put", B: "bka", K: k, Body: "b", Opt: map[string]string{"ck": "bad:md5"}},
+			sx.Op{Kind: "Put", B: "bka", K: k, Body: "c", Opt: map[string]string{"ifnm": "*"}},
 			sx.Op{Kind: "Append", B: "bka", K: k, Body: "x"},
 			sx.Op{Kind: "Delete", B: "bka", K: k},
 			sx.Op{Kind: "PutTagging", B: "bka", K: k, Opt: map[string]string{"tags": "z=9"}},
@@ -190,6 +194,13 @@ func c23Alphabet(m *sx.Model, stack string) []sx.Op {
 				sx.Op{Kind: "DeleteTagging", B: bn, K: k},
 				sx.Op{Kind: "CreateUpload", B: bn, K: k, Opt: map[string]string{"ct": "x/y", "meta": "u=1"}},
 			)
+			if len(b.Keys[k]) > 0 {
+				// bulk deletes: one entry whose If-Match does not hold, one whose does, one unconditional
+				ops = append(ops,
+					sx.Op{Kind: "DeleteObjects", B: bn, Parts: []string{k + "?ifm=bad"}},
+					sx.Op{Kind: "DeleteObjects", B: bn, Parts: []string{k + "?ifm=cur", "k9"}},
+					sx.Op{Kind: "DeleteObjects", B: bn, Parts: []string{"k1", "k2?ifm=bad"}})
+			}
 			for _, sb := range m.BucketNames() {
 				for sk := range m.Buckets[sb].Keys {
 					ops = append(ops, sx.Op{Kind: "Copy", SB: sb, SK: sk, B: bn, K: k})
@@ -294,6 +305,9 @@ func c24Alphabet(m *sx.Model, stack string) []sx.Op {
 			for sk := range m.Buckets[sb].Keys {
 				ops = append(ops, sx.Op{Kind: "Copy", SB: sb, SK: sk, B: bn, K: "k2"})
 				ops = append(ops, sx.Op{Kind: "Copy", SB: sb, SK: sk, B: bn, K: "k2", Opt: map[string]string{"range": "0-1"}})
+				// date preconditions echoing the source's Last-Modified (second precision)
+				ops = append(ops, sx.Op{Kind: "Copy", SB: sb, SK: sk, B: bn, K: "k2", Opt: map[string]string{"cus": "echo-unmodified"}})
+				ops = append(ops, sx.Op{Kind: "Copy", SB: sb, SK: sk, B: bn, K: "k2", Opt: map[string]string{"cus": "echo-modified"}})
 			}
 		}
 	}
@@ -303,6 +317,7 @@ func c24Alphabet(m *sx.Model, stack string) []sx.Op {
 		for _, sb := range m.BucketNames() {
 			for sk := range m.Buckets[sb].Keys {
 				ops = append(ops, sx.Op{Kind: "UploadPartCopy", SB: sb, SK: sk, B: u.B, K: u.K, U: uo, N: len(u.Parts) + 1})
+				ops = append(ops, sx.Op{Kind: "UploadPartCopy", SB: sb, SK: sk, B: u.B, K: u.K, U: uo, N: len(u.Parts) + 1, Opt: map[string]string{"cus": "echo-unmodified"}})
 			}
 		}
 	}
@@ -315,16 +330,19 @@ func init() {
 		Assert: map[string]bool{"cache": true}, Extra: c20Differential})
 	sx.Register(&sx.Spec{Name: "C23", Buckets: []string{"bka", "bkb"}, Keys: []string{"k1", "k2"}, Alphabet: c23Alphabet, World: c23World, Under: c23Under,
 		Assert: map[string]bool{"replica": true}, Extra: c23Replicas})
-	sx.Register(&sx.Spec{Name: "C24", Buckets: []string{"bka", "bkb", "bkc"}, Keys: []string{"k1", "k2"}, Alphabet: c24Alphabet, World: c24World, Under: c24Under,
+	// Step 1.3 s: operations happen inside a wall-clock second, not on its boundary, so that
+	// second-granular date preconditions differ from exact-instant comparison
+	sx.Register(&sx.Spec{Name: "C24", Buckets: []string{"bka", "bkb", "bkc"}, Keys: []string{"k1", "k2"}, Alphabet: c24Alphabet, World: c24World, Under: c24Under, Step: 1300 * time.Millisecond,
 		Assert: map[string]bool{"isolation": true, "exist": true, "content": true, "result": true, "upload": true, "etag": true, "meta": true}, Extra: c24Isolation, Classify: c24Classify})
 }
 
 func TestC23(t *testing.T) {
 	run := ev.NewRun("C23", "model_checking")
 	run.Assumptions = []string{"primary + two secondaries, three independent SQLite worlds", "no explicit version ids in the alphabet"}
-	s := &sx.Search{Run: run, TestRun: "^TestWorker$", Spec: sx.SpecByName("C23"), Depth: 3, Stacks: []string{world.StackSQL}, Seeds: [][]sx.Op{
+	s := &sx.Search{Run: run, TestRun: "^TestWorker$", Spec: sx.SpecByName("C23"), Depth: 2, Stacks: []string{world.StackSQL}, Seeds: [][]sx.Op{
 		{{Kind: "CreateBucket", B: "bka"}},
 		{{Kind: "CreateBucket", B: "bka"}, {Kind: "CreateBucket", B: "bkb"}, {Kind: "Put", B: "bka", K: "k1", Body: "P5", Opt: map[string]string{"meta": "m=1", "tags": "t=1"}}, {Kind: "CreateUpload", B: "bkb", K: "k2"}},
+		{{Kind: "CreateBucket", B: "bka"}, {Kind: "PutVersioning", B: "bka", Opt: map[string]string{"status": "Enabled"}}, {Kind: "Put", B: "bka", K: "k1", Body: "a"}, {Kind: "Append", B: "bka", K: "k2", Body: "x"}, {Kind: "Delete", B: "bka", K: "k1"}},
 	}}
 	if !quick() {
 		s.Depth = 4
